@@ -70,7 +70,7 @@ Proof.
   - intros a b Hab Hba. apply (H3 (f a) (f b)); apply (In_pmap_inj f finj); assumption.
   - intros a b Hab. specialize (H4 (f a) (f b)). rewrite !(In_pmap_inj f finj) in H4. apply H4. exact Hab.
   - intros a' b' Hab Hba. apply In_pmap_ex in Hab. destruct Hab as [a [b [E Hab]]]. inversion E; subst.
-    apply (In_pmap_inj f finj) in Hba. apply (H3 a b Hab Hba).
+    apply (proj1 (In_pmap_inj f finj b a (D p))) in Hba. apply (H3 a b Hab Hba).
   - intros a' b' Hab. apply In_pmap_ex in Hab. destruct Hab as [a [b [E Hab]]]. inversion E; subst.
     rewrite !(In_pmap_inj f finj). apply H4. exact Hab.
 Qed.
